@@ -1024,7 +1024,9 @@ func resultMapUpdates(c *core.Ctx, f, conv *core.Func) (ssa.Value, []*ssa.MapUpd
 	if res == nil {
 		return nil, nil, nil
 	}
-	flow := core.FlowOpts{Idx: c.P.SiteIndex(c.P.VTA()), Follow: func(g *ssa.Function) bool { return core.IsModPath(core.FuncPkgPath(g)) && g.Origin() != conv.SSA && g != conv.SSA }}.Run([]ssa.Value{res})
+	flow := core.FlowOpts{Idx: c.P.SiteIndex(c.P.VTA()), Follow: func(g *ssa.Function) bool {
+		return core.IsModPath(core.FuncPkgPath(g)) && g.Origin() != conv.SSA && g != conv.SSA
+	}}.Run([]ssa.Value{res})
 	var updates []*ssa.MapUpdate
 	hosts := map[*ssa.Function]bool{f.SSA: true}
 	for v := range flow {
